@@ -42,6 +42,7 @@ type GenOpts struct {
 	DirectRec   bool // direct struct recursion (*Self "@@" behind a consumed token); only renderable as Go source
 	WildLits    bool // literal texts with escapes / non-ASCII (for grammars that are printed, not parsed)
 	Embeds      bool // Go-source rendering: put leading fields into an embedded named struct
+	DeepEmbeds  bool // StructOf rendering: leading fields in a struct embedded by value 1-4 levels deep
 	Parseables  bool // user-implemented productions (participle.Parseable)
 }
 
@@ -768,6 +769,10 @@ func GenGrammar(t *rapid.T, o GenOpts) *Grammar {
 		assignFields(t, p, p.Expr, i)
 		if o.Embeds && len(p.Fields) > 0 && rapid.IntRange(0, 2).Draw(t, "embed") == 0 {
 			p.Embed = rapid.IntRange(1, len(p.Fields)).Draw(t, "nembed")
+		}
+		if o.DeepEmbeds && len(p.Fields) > 0 && rapid.IntRange(0, 5).Draw(t, "deepembed") == 0 {
+			p.Embed = rapid.IntRange(1, len(p.Fields)).Draw(t, "nembed")
+			p.EmbedDepth = rapid.SampledFrom([]int{1, 2, 3, 3, 4}).Draw(t, "embeddepth")
 		}
 	}
 	return g
